@@ -274,10 +274,10 @@ class C10(TreeSpec):
     tiers = {"quick": dict(runs=3600, builds=("py", "cy"), wall=75), "thorough": dict(runs=120000, builds=("py", "cy"), wall=1500)}
     rule = (
         "runs alternate between well-formed tree-driver plans, well-formed real Backtest.run()s of stock-algo stacks (then every report accessor is called and every recorded number must be finite) and plans with one enumerated ill-formed situation injected "
-        "(NaN price on an open position, trade at NaN/zero price, custom-price trade without bid/offer data, fixed-income child under a market-value parent, duplicate tickers); an exception is legitimate iff the reference model shows one of the enumerated conditions at that instant, and then it is required; "
+        "(NaN price on an open position, trade at NaN/zero price via allocate and via transact, custom-price trade without bid/offer data, fixed-income child under a market-value parent, duplicate tickers); an exception is legitimate iff the reference model shows one of the enumerated conditions at that instant, and then it is required; "
         "distinct = plan digest; non-trivial = >= 1 trade and >= 2 ticks, or an ill-formed situation that actually arose"
     )
-    ILL = ("nan_open", "custom_nobidoffer", "fi_child")
+    ILL = ("nan_open", "custom_nobidoffer", "fi_child", "transact_nan")
 
     def gen(self, r, tier, i):
         k = i % 6
@@ -293,7 +293,7 @@ class C10(TreeSpec):
         if ill:
             res["info"]["ill_" + ill] = 1
             f = res["fired"]
-            if f.get("open_nan_raise") or f.get("ill_custom_price") or f.get("ill_fi_child"):
+            if f.get("open_nan_raise") or f.get("ill_custom_price") or f.get("ill_fi_child") or f.get("ill_transact_nan"):
                 res["nontrivial"] = True
                 res["info"]["ill_arose_" + ill] = 1
         if plan["driver"] == "engine" and plan["cfg"].get("dupcheck", True):
@@ -1336,8 +1336,8 @@ class C19(Spec):
                     c["decl"] = r.choice(["str", "lazy"])
                     if c["decl"] == "str":
                         c["mult"] = 1.0
-            if r.random() < 0.3 and s.get("how") == "list":
-                s["how"] = r.choice(["dict", "parent"]) if s["name"] != plan["tree"]["name"] else "dict"
+            if r.random() < 0.5 and s.get("how") == "list":
+                s["how"] = r.choice(["dict", "parent", "parent"]) if s["name"] != plan["tree"]["name"] else "dict"
             s["algos"] = [{"a": "Spy", "id": 900}] + [a for a in s.get("algos", []) if a.get("a") not in ("Chaos", "SelectRandomly", "WeighRandomly")]
         plan["cfg"]["obs_eod"] = False
         if plan["cfg"].get("comm") is None and r.random() < 0.5:
@@ -1391,9 +1391,11 @@ class C19(Spec):
             elif not subs:
                 exp_cols[">".join(p)] = [set(tick)]
             else:
-                # only sub-strategies declared: the statement leaves open whether that counts as "declared none"
-                # (children passed to the constructor -> no tickers; children attached later with parent= -> all tickers)
-                exp_cols[">".join(p)] = [set(subs), set(subs) | set(tick)]
+                # only sub-strategies: children passed to the constructor -> it declared its children and no ticker among
+                # them (documented: "no other ticker should be used"); children that attached themselves later with
+                # parent= -> the strategy itself declared nothing -> all tickers
+                passed = [c for c in s["children"] if c["k"] == "S" and not (c.get("how") == "parent" and c["cls"] != "FixedIncomeStrategy")]
+                exp_cols[">".join(p)] = [set(subs)] if passed else [set(subs) | set(tick)]
         for name, t, cl in cols:
             if set(cl) not in exp_cols[name] or len(cl) != len(set(cl)):
                 viol.append({"check": "c19_universe", "detail": "date #%d: %s sees universe columns %s, declared %s" % (t, name, cl, sorted(exp_cols[name][0])), "flags": {}})
@@ -1626,6 +1628,13 @@ class C20(Spec):
             active_roll = fam == "active" and r.random() < 0.5
             if fam in ("close", "active") and not active_roll:
                 tab = {"kind": "table", "index": tgt_names, "cols": ["date"], "data": [[between(k)] for k in evd[: len(tgt_names)]], "datecols": ["date"]}
+                if fam == "active" and r.random() < 0.5:
+                    # matured before the data starts: flat when its close date passes, must still never be selected
+                    import datetime as _dtm
+
+                    tab["data"][0] = [(_dtm.datetime.fromisoformat(dates[0]) - _dtm.timedelta(days=r.choice([1, 30]))).isoformat()]
+                    evd = [ndates] + evd[1:]  # (its quotes stay: nothing is blanked after index ndates)
+                    fired["matured_before_start"] = 1
                 extra["cd"] = tab
                 head = [{"a": "ClosePositionsAfterDates", "args": ["cd"]}, {"a": "Spy", "id": 3}]
                 # prices disappear after maturity (the position is closed by then)
@@ -1780,7 +1789,9 @@ class C20(Spec):
                 fired["close_date_passed"] = fired.get("close_date_passed", 0) + 1
                 if (np.abs(pos[name][k0:]) > 1e-12).any():
                     k = k0 + int(np.argmax(np.abs(pos[name][k0:]) > 1e-12))
-                    viol.append({"check": "c20_close", "detail": "%s closes after %s but holds %r at the end of %s" % (name, D, pos[name][k], dates[k]), "flags": {"fam": fam}})
+                    decl = [s["decl"] for _p, s in drive_engine.trees.securities(plan["tree"]) if s["name"] == name]
+                    flat_at_close = not (np.abs(pos[name][:k0]) > 1e-12).any()
+                    viol.append({"check": "c20_close", "detail": "%s closes after %s but holds %r at the end of %s" % (name, D, pos[name][k], dates[k]), "flags": {"fam": fam, "lazy_child": bool(decl and decl[0] != "obj"), "flat_when_date_passed": bool(flat_at_close)}})
                     break
                 if (np.abs(pos[name][:k0]) > 1e-12).any():
                     fired["position_closed"] = fired.get("position_closed", 0) + 1
@@ -1788,7 +1799,11 @@ class C20(Spec):
                 if sid == 5:
                     for name, (d,) in zip(tab["index"], tab["data"]):
                         if dates[t] >= _dt.datetime.fromisoformat(d) and name in selected:
-                            viol.append({"check": "c20_select_active", "detail": "%s was closed after %s but SelectActive still selects it on %s" % (name, d, dates[t]), "flags": {}})
+                            decl = [s["decl"] for _p, s in drive_engine.trees.securities(plan["tree"]) if s["name"] == name]
+                            D = _dt.datetime.fromisoformat(d)
+                            k0 = [k for k, x in enumerate(dates) if x >= D][0]
+                            flat = name not in pos or not (np.abs(pos[name][:k0]) > 1e-12).any()
+                            viol.append({"check": "c20_select_active", "detail": "%s was closed after %s but SelectActive still selects it on %s" % (name, d, dates[t]), "flags": {"lazy_child": bool(decl and decl[0] != "obj"), "flat_when_date_passed": bool(flat)}})
                             break
         if fam == "roll":
             tab = plan["x"]["table"]
@@ -2038,7 +2053,13 @@ class C15(Spec):
         if k < 0.5:
             rows = sorted(r.sample(dates[warm:], r.randint(2, len(dates) - warm)))
             nm = "tailtw"
-            extra[nm] = drive_engine._frame(full, [[v for v in wvec(full).values()] for _ in rows], rows=rows)
+            data = []
+            for _ in rows:
+                # targets over a changing subset: names held from an earlier rebalance drop out of the vector
+                sub = r.sample(full, r.randint(1, len(full)))
+                ws = wvec(sub)
+                data.append([ws.get(n) for n in full])
+            extra[nm] = drive_engine._frame(full, data, rows=rows)
             lim = r.choice([0.02, 0.05, 0.2, {full[0]: 0.03}])
             tail += [{"a": "WeighTarget", "args": [nm]}, {"a": "Wrap", "inner": {"a": "LimitDeltas", "kw": {"limit": lim}}}, {"a": "Rebalance"}]
         else:
